@@ -5,7 +5,8 @@
 From Coq Require Import ZArith List Bool QArith Qabs.
 From PCB Require Import lib.Result lib.PyInt lib.Harness lib.MBFPrims gen.Gen_mbf model.MBF
   gen.Gen_using model.Using model.UsingDec
-  proofs.Using_proofs proofs.Using_digits proofs.Using_cycle proofs.Using_round proofs.Using_exact.
+  proofs.Using_proofs proofs.Using_digits proofs.Using_cycle proofs.Using_round proofs.Using_exact
+  proofs.Using_scival.
 Import ListNotations.
 Open Scope Z_scope.
 
@@ -175,6 +176,26 @@ Theorem C08_sci_pair : forall v w m0 e0,
   exists m e, sci_pair v w = Ok (m, e + w) /\ Z.abs m < 10 ^ w /\ m * 10 ^ (e - e0) = m0 /\ e0 <= e.
 Proof. exact sci_pair_spec. Qed.
 Print Assumptions C08_sci_pair.
+
+(* the radix position and exponent of a ^^^^ field, end to end from to_decimal(work_digits) = (m0, e0), for
+   every field (also with more digit positions than the type has digits: zero padding; also when rounding
+   carried into an extra digit): db digits, point, da digits, E/D, sign and >= 2 digits of the exponent X, and
+   the number shown, digits * 10^(X - da), is exactly |m0| * 10^e0 *)
+Theorem C08_scientific_value : forall v db da fd m0 e0,
+  nv_zero v = false -> 0 <= db -> 0 <= da -> 1 <= db + da ->
+  let req := db + da in
+  let w := Z.min (nv_digits v) req in
+  to_decimal v w = Ok (m0, e0) -> Z.abs m0 <= 10 ^ w ->
+  exists ip fp dd X,
+    to_str_scientific v db da fd
+      = Ok (ip ++ (if (0 <? da) || fd then [cDOT] else []) ++ fp
+            ++ exp_sign v :: (if X <? 0 then cMINUS else cPLUS) :: dd)
+    /\ Z.of_nat (length ip) = db /\ Z.of_nat (length fp) = da
+    /\ Forall is_digit (ip ++ fp) /\ Forall is_digit dd /\ (2 <= length dd)%nat /\ dval dd = Z.abs X
+    /\ forall K, 0 <= K + (X - da) -> 0 <= K + e0 ->
+         dval (ip ++ fp) * 10 ^ (K + (X - da)) = Z.abs m0 * 10 ^ (K + e0).
+Proof. exact to_str_scientific_value. Qed.
+Print Assumptions C08_scientific_value.
 
 (* ---- the rounding arithmetic of to_str_fixed itself, for ALL pairs ---- *)
 
